@@ -14,6 +14,7 @@ from vf import gen
 from vf.core import hyp_run, reset_tatsu_state, watchdog, CaseTimeout
 
 PROPERTY = 'C17'
+HISTORY_CONFIRM = True   # what an expression can see must not depend on earlier evaluations: such failures are confirmed by re-running the shard
 RULE = ('expression strings from a small grammar of Python expressions: every name in vars(builtins) called with plausible arguments (none, an '
         'AST value, a path-like string, a code-like string), attribute chains with and without dunders, subscripts, comprehensions, lambdas, '
         'conditional expressions, walrus, string concatenations that spell dunder names, nested f-string fields including nested format specs, '
@@ -377,14 +378,14 @@ def run_shard(sh, n):
         if d is not None:
             sh.fail(d['bucket'], dict(expr=expr, route=route, shadow=expr if route.startswith('shadow') else None,
                                       sname=sname if route.startswith('shadow') else None), d)
-    hyp_run(sh, gen.rnds(), body, n)
-    # two-step histories
+    # two-step histories (first, while this process has evaluated nothing else)
     if sh.index == 0:
         for sname, sval, probe in [('password', 'hunter2', '{password}'), ('token', 'tk9', 'token'), ('secret', 's3cr3t', 'x{secret}y'), ('pw', 'zz9', '{pw!r}')]:
             d = check_history(sname, sval, probe)
             sh.case(('history', sname, probe), True, ['history'], sample=dict(history=[sname, probe]))
             if d:
                 sh.fail(d['bucket'], dict(route='history', name=sname, value=sval, probe=probe), d)
+    hyp_run(sh, gen.rnds(), body, n)
 
 
 def replay(case):
